@@ -517,6 +517,39 @@ def check(prog, run):
                                    "`%s` constructs %s without raising it: the invalid input falls through (returns None)" % (norm_stmt(n, 70), nm))
 
 
+    # ---- L1 rebuilt elements take their members from the declared list, not from a name-keyed view
+    from . import c14
+    r = run.rule("L1", "every site that rebuilds a schema element from an existing one (C14.C1's copy-constructor sites) enumerates the "
+                       "source's members through its declared list (fields, arguments, values, types, interfaces), never through a "
+                       "name-keyed view (`*_map`, a dict-returning property): a map holds one entry per name, so a duplicated member "
+                       "— which schema validation must report — silently disappears when an extension rebuilds the element", 8)
+    tm = prog.module("py_gql.schema.types")
+    map_like = set()
+    for c in prog.all_classes():
+        if c.module is not tm:
+            continue
+        for name, m in c.methods.items():
+            if not any(ast.unparse(d).split(".")[-1] in ("property", "cached_property") for d in m.node.decorator_list):
+                continue
+            rets = [x.value for x in own_nodes(m.node) if isinstance(x, ast.Return) and x.value is not None]
+            if name.endswith("_map") or any(isinstance(v, (ast.DictComp, ast.Dict)) or (isinstance(v, ast.Call) and isinstance(v.func, ast.Name)
+                                                                                          and v.func.id in ("dict", "OrderedDict")) for v in rets):
+                map_like.add(name)
+    shapes.require(bool(map_like), "C11.L1: no name-keyed view found in schema/types.py")
+    for f, call, ci, src, supplied, params in c14.rebuild_sites(prog):
+        r.instance("%s: %s(...) rebuilt from `%s`" % (f.qualname, ci.name, src))
+        for a in list(call.args) + [k.value for k in call.keywords]:
+            for x in ast.walk(a):
+                if isinstance(x, ast.Attribute) and isinstance(x.value, ast.Name) and x.value.id == src and x.attr in map_like:
+                    # a lookup by one name (`src.field_map[name]`, `.get(name)`) is not an enumeration
+                    par = getattr(x, "_parent", None)
+                    if isinstance(par, ast.Subscript) or (isinstance(par, ast.Attribute) and par.attr == "get"):
+                        continue
+                    run.report(r, "%s:%s:members-from-map(%s.%s)" % (f.module.name, f.qualname, ci.name, x.attr), f.where(x),
+                               "%s rebuilds a %s from `%s.%s`: members declared twice under one name collapse into one, so the "
+                               "duplicate is never seen by schema validation" % (f.qualname, ci.name, src, x.attr))
+
+
 def eager_reference_kinds(prog, cls, m, entry, seen, depth=0):
     """Kinds whose builder `entry` is (transitively, through same-class helpers) called eagerly from method m."""
     if m is None or m.key in seen or depth > 6:
